@@ -227,6 +227,7 @@ func c03HistName(hist []int, ops []c03Op, el c03Elem) string {
 }
 
 type c03Stats struct {
+	distinct    *findings.Distinct
 	mu          sync.Mutex
 	states      map[string]bool
 	transitions int
@@ -263,6 +264,7 @@ func c03RunAll(r *findings.Run, stats *c03Stats, deadline time.Time) {
 			return
 		}
 		pv := JudgeBash(progs[i], ProgOpts{})
+		stats.distinct.Add(pv.Src)
 		stats.mu.Lock()
 		switch pv.Symptom {
 		case "":
@@ -296,9 +298,9 @@ func c03Histories(r *findings.Run, stats *c03Stats, deadline time.Time) {
 			kAll = 3
 		}
 		if r.Thorough() {
-			kAll, kBFS = 3, 5
+			kAll, kBFS = 3, 4
 			if ei == 0 {
-				kBFS = 6
+				kBFS = 5
 			}
 		}
 		var progs []*Prog
@@ -470,7 +472,7 @@ func C03() int {
 	r.Level = "model_checking"
 	defer drive.Cleanup()
 	deadline := r.Deadline(8*time.Minute, 40*time.Minute)
-	stats := &c03Stats{states: map[string]bool{}}
+	stats := &c03Stats{states: map[string]bool{}, distinct: findings.NewDistinct()}
 	c03Jobs = nil
 	c03Sweeps(r, stats, deadline) // the long programs first
 	c03Histories(r, stats, deadline)
@@ -479,7 +481,7 @@ func C03() int {
 	r.Set("transitions", stats.transitions)
 	r.Set("traces_validated_against_impl", stats.validated)
 	r.Set("evaluations", stats.validated+stats.undef+r.Violations())
-	r.Set("distinct_nontrivial", len(stats.states))
+	r.Set("distinct_nontrivial", stats.distinct.Len())
 	r.Set("skipped_undefined", stats.undef)
 	r.Set("exhaustive", !stats.capped)
 	r.Set("rule", "explicit-state search over the abstract heap of two slice variables (alias relation + contents) for []int, []string, []bool: every operation sequence up to the all-paths depth, then breadth-first search with state merging up to the BFS depth; every history (shortest path + operation) is replayed as a TypeShell program on the real transpiler + bash with len and all elements of both variables printed after every step, and compared with the reference interpreter. states = distinct abstract heaps reached, transitions = operation applications, traces_validated_against_impl = programs whose real run agreed with the model. Plus index sweeps: for every string length 0..L all in-range (a,b) pairs for s[a:b], s[:b], s[a:], s[:], s[i], len, +, ==, !=, range; slice growth element by element with read-back.")
